@@ -27,6 +27,10 @@ type c3fCase struct {
 	Std     []string `json:"std"`  // std references "path.Type"
 	Twice   []int    `json:"twice,omitempty"`
 	OwnRef  bool     `json:"ownref,omitempty"`
+	// SkipRef: a reference that only the second type (Own) renders, after which its GenerateType returns SkipErr (skip | ignore | wrapskip):
+	// whatever gengo does with text rendered before such a return, the import block must match what is in the file
+	SkipRef string `json:"skipref,omitempty"`
+	SkipErr string `json:"skiperr,omitempty"`
 }
 
 var c3fDirPool = []string{
@@ -71,6 +75,10 @@ func genC03File(t *rapid.T) c3fCase {
 		}
 	}
 	c.OwnRef = rapid.Bool().Draw(t, "ownref")
+	if rapid.IntRange(0, 2).Draw(t, "skipref") == 0 {
+		c.SkipRef = rapid.SampledFrom([]string{"time.Duration", "os.File", "net/url.URL", "crypto/rand.Reader"}).Draw(t, "skiprefv")
+		c.SkipErr = rapid.SampledFrom([]string{"skip", "ignore", "wrapskip"}).Draw(t, "skiperr")
+	}
 	return c
 }
 
@@ -118,6 +126,13 @@ func oracleC03File(c c3fCase) error {
 	s := &script.Script{Name: "g", Mode: "fixed", PerType: map[string]script.Action{
 		c.ModPath + "/target.Target": {Render: []script.Piece{{Kind: "t", Text: text, Refs: all}}},
 	}}
+	if c.SkipRef != "" {
+		decl := "\nvar _skipped @R0\n"
+		if strings.HasSuffix(c.SkipRef, ".Reader") {
+			decl = "\nvar _skipped = @R0\n"
+		}
+		s.PerType[c.ModPath+"/target.Own"] = script.Action{Render: []script.Piece{{Kind: "t", Text: decl, Refs: []string{c.SkipRef}}}, Err: c.SkipErr}
+	}
 	res := script.Run(script.RunSpec{Dir: dir, Entrypoints: []string{"./target"}, Globals: map[string][]string{"gengo:g": {""}}, Base: "zz_generated", Scripts: []*script.Script{s}})
 	if res.LoadErr != "" {
 		panic("harness: synthetic module does not load: " + res.LoadErr)
@@ -166,6 +181,10 @@ func oracleC03File(c c3fCase) error {
 	}
 	for _, s := range c.Std {
 		want[s[:strings.LastIndex(s, ".")]] = true
+	}
+	if c.SkipRef != "" && strings.Contains(string(src), "_skipped") {
+		// what was rendered before the ErrSkip/ErrIgnore return is in the file, so its package is referenced
+		want[c.SkipRef[:strings.LastIndex(c.SkipRef, ".")]] = true
 	}
 	for p := range want {
 		if _, ok := byPath[p]; !ok {
